@@ -66,8 +66,10 @@ probes! {
     P_NTH_DROP_PANIC = 35, "nth/nth_back interrupted by a panicking destructor of a skipped element, iterator still used afterwards";
     P_FOLD_CLOSURE_PANIC = 36, "fold/rfold/consuming adaptor closure panicked (iterator dropped during unwinding)";
     P_LOOP_BODY_PANIC = 37, "for-loop body panicked (iterator survives, history continues)";
+    P_CONTAINER_CLONE = 38, "vector / matrix cloned (Clone on the container), clone dropped";
+    P_CLONE_PANIC_FIRED = 39, "panic inside an element's clone() while cloning a container";
 }
-pub const N_PROBES: usize = 38;
+pub const N_PROBES: usize = 40;
 
 pub const N_OPK: usize = 80;
 
@@ -177,6 +179,7 @@ pub struct Stats {
     pub runs_faulty: u64,
     pub runs_nontrivial: u64,
     pub runs_wide: u64,
+    pub runs_plain: u64,
     pub ops_exec: u64,
     pub ops_skipped: u64,
     pub op_counts: [u64; N_OPK],
@@ -200,6 +203,7 @@ impl Stats {
             runs_faulty: 0,
             runs_nontrivial: 0,
             runs_wide: 0,
+            runs_plain: 0,
             ops_exec: 0,
             ops_skipped: 0,
             op_counts: [0; N_OPK],
@@ -221,6 +225,7 @@ impl Stats {
         self.runs_faulty += o.runs_faulty;
         self.runs_nontrivial += o.runs_nontrivial;
         self.runs_wide += o.runs_wide;
+        self.runs_plain += o.runs_plain;
         self.ops_exec += o.ops_exec;
         self.ops_skipped += o.ops_skipped;
         for i in 0..N_OPK {
